@@ -401,6 +401,7 @@ pub async fn scenario(w: World, h: Hist, trace: bool) -> Outcome {
                             wreg[wi].push(key);
                         }
                         arrival_no += 1;
+                        model.arrival_clock = arrival_no;
                         let max_acc = model.insts.get(&key).and_then(|i| i.accepted_ts.iter().max().copied()).unwrap_or(i64::MIN);
                         arrivals.insert((wi as u32, *seq), (arrival_no, key, max_acc));
                         model.deliver_data(wi as u32, key, *seq, *ts)
@@ -570,14 +571,25 @@ async fn check_rejections(
         let st = &new[new.len() - 1];
         let reason = reason_of(st.last_reason).map(|r| r.kind()).unwrap_or("NOT_REJECTED");
         let replaced_expected = pend.iter().any(|p| p.1 == Expect::Replaced);
-        if prop == "C18" {
-            let (sig, what) = if replaced_expected && st.last_reason == SampleRejectedStatusKind::RejectedBySamplesPerInstanceLimit {
+        if pend.iter().any(|p| p.1 == Expect::StateChange) {
+            // a dispose / unregister notification was (possibly) rejected: whether such notifications
+            // occupy resources is not specified
+            out.abandoned = Some(format!("reader reported a rejection ({reason}) while a dispose/unregister was being delivered"));
+            out.stat("abandoned_rejected_state_change", 1);
+        } else if prop == "C18" {
+            let relation = match st.last_reason {
+                SampleRejectedStatusKind::RejectedBySamplesLimit => "max_samples_reached",
+                SampleRejectedStatusKind::RejectedByInstancesLimit => "max_instances_reached",
+                _ => relation,
+            };
+            let (sig, what) = if replaced_expected {
                 (
                     format!("rejected_instead_of_replaced|limits={relation}"),
                     format!(
-                        "KEEP_LAST({}) reader with max_samples_per_instance {:?}: a sample arriving for an instance that already holds depth samples was rejected ({reason}) instead of replacing the oldest one",
+                        "KEEP_LAST({}) reader with max_samples_per_instance {:?}, max_samples {:?}: a sample arriving for an instance that already holds depth samples was rejected ({reason}) instead of replacing the oldest one",
                         model.cfg.depth.unwrap_or(0),
-                        model.cfg.max_spi
+                        model.cfg.max_spi,
+                        model.cfg.max_samples
                     ),
                 )
             } else {
@@ -779,14 +791,24 @@ async fn judge_collection(
                 _ => {
                     // C20 / C23: find out whether the instance's states explain the selection
                     let sig = diagnose_selection(env, model, r, raw, &f.what).await;
-                    push_finding(out, sig, f.what, oi);
+                    if prop == "C23" && (sig.starts_with("view_state") || sig.starts_with("instance_state")) {
+                        out.abandoned = Some(format!("instance state differs from the model (life cycle, not the walk): {sig}"));
+                        out.stat("abandoned_state_differs_from_model", 1);
+                    } else {
+                        push_finding(out, sig, f.what, oi);
+                    }
                 }
             }
         } else {
             if f.fatal {
                 stop = true;
             }
-            push_finding(out, f.sig, f.what, oi);
+            if prop == "C23" && (f.sig.starts_with("view_state") || f.sig.starts_with("instance_state")) {
+                out.abandoned = Some(format!("instance state differs from the model (life cycle, not the walk): {}", f.sig));
+                out.stat("abandoned_state_differs_from_model", 1);
+            } else {
+                push_finding(out, f.sig, f.what, oi);
+            }
         }
     }
     if prop == "C25" && !stop {
@@ -912,8 +934,11 @@ fn note_presented_c25(
                     let na = arrivals.get(&ida).map(|x| x.0).unwrap_or(0);
                     let nb = arrivals.get(&idb).map(|x| x.0).unwrap_or(0);
                     let ((t1, id1), (t2, id2)) = if na < nb { ((ta, ida), (tb, idb)) } else { ((tb, idb), (ta, ida)) };
-                    let earlier_fate = model.fate.get(&id1).map(|f| f.2.clone());
-                    let earlier = if earlier_fate == Some(Fate::Taken) { "taken_before_or_after" } else { "stored" };
+                    let n2 = na.max(nb);
+                    let earlier = match model.taken_at.get(&id1) {
+                        Some(t) if *t < n2 => "taken_before_arrival",
+                        _ => "still_stored_at_arrival",
+                    };
                     let order = if t2 >= t1 { "in_order" } else { "out_of_order" };
                     let sig = format!("too_close|earlier_sample={earlier}|stamps={order}");
                     if !out.findings.iter().any(|f| f.sig == sig) {
@@ -1006,6 +1031,16 @@ async fn walk(
                         .collect();
                     after.sort();
                     let blocked = after.first().map(|(_, k)| !remaining.contains(k)).unwrap_or(false);
+                    if !blocked {
+                        // does the implementation's idea of the instance's states explain it?
+                        let probe = ReadOp { take: false, sel: Sel::Inst(remaining[0]), max: MAX_ALL, ss: SS_ANY, vs: VS_ANY, is: IS_ANY };
+                        let sig = diagnose_selection(env, model, &probe, "missing", &format!("instance k{}", remaining[0])).await;
+                        if sig.starts_with("view_state") || sig.starts_with("instance_state") {
+                            out.abandoned = Some(format!("instance state differs from the model (life cycle, not the walk): {sig}"));
+                            out.stat("abandoned_state_differs_from_model", 1);
+                            return true;
+                        }
+                    }
                     let feature = if blocked { "next_instance_in_handle_order_has_no_matching_sample" } else { "other" };
                     push_finding(
                         out,
